@@ -450,7 +450,7 @@ pub fn run_case(rep: &mut Report, seed: u64, case: u64, kind: TierKind, verbose:
     }
     cx.rep.count(&format!("histories_{tn}"), 1);
     cx.rep.count(&format!("blobs_stored_{tn}"), model.len() as u64);
-    if cx.rep.wants_sample() && cx.trace.len() > 40 && case % 7 == 3 {
+    if cx.rep.wants_sample() && (case == 3 || case == 4) {
         let t: Vec<&String> = cx.trace.iter().take(14).collect();
         cx.rep.sample(json!({"workload": format!("cas-{tn}"), "case": case, "pool_blob_lengths": pool.iter().map(Vec::len).collect::<Vec<_>>(),
             "ops_total": cx.trace.len(), "first_ops": t, "blobs_stored_at_end": model.len()}));
